@@ -1,6 +1,7 @@
 package session
 
 import (
+	"sort"
 	"sync"
 
 	"github.com/256dpi/gomqtt/packet"
@@ -9,6 +10,8 @@ import (
 // PacketStore is a goroutine safe packet store.
 type PacketStore struct {
 	packets map[packet.ID]packet.Generic
+	order   map[packet.ID]uint64
+	counter uint64
 	mutex   sync.RWMutex
 }
 
@@ -16,15 +19,14 @@ type PacketStore struct {
 func NewPacketStore() *PacketStore {
 	return &PacketStore{
 		packets: make(map[packet.ID]packet.Generic),
+		order:   make(map[packet.ID]uint64),
 	}
 }
 
 // NewPacketStoreWithPackets returns a new PacketStore with the provided packets.
 func NewPacketStoreWithPackets(packets []packet.Generic) *PacketStore {
 	// prepare store
-	store := &PacketStore{
-		packets: make(map[packet.ID]packet.Generic),
-	}
+	store := NewPacketStore()
 
 	// add packets
 	for _, pkt := range packets {
@@ -42,6 +44,12 @@ func (s *PacketStore) Save(pkt packet.Generic) {
 
 	id, ok := packet.GetID(pkt)
 	if ok {
+		// remember the position of new ids, a replaced packet keeps its position
+		if _, exists := s.packets[id]; !exists {
+			s.counter++
+			s.order[id] = s.counter
+		}
+
 		s.packets[id] = pkt
 	}
 }
@@ -62,9 +70,11 @@ func (s *PacketStore) Delete(id packet.ID) {
 
 	// delete packet
 	delete(s.packets, id)
+	delete(s.order, id)
 }
 
-// All will return all packets currently saved in the store.
+// All will return all packets currently saved in the store in the order in
+// which their ids have been saved first.
 func (s *PacketStore) All() []packet.Generic {
 	s.mutex.RLock()
 	defer s.mutex.RUnlock()
@@ -74,6 +84,13 @@ func (s *PacketStore) All() []packet.Generic {
 	for _, pkt := range s.packets {
 		all = append(all, pkt)
 	}
+
+	// sort packets by their position
+	sort.Slice(all, func(i, j int) bool {
+		a, _ := packet.GetID(all[i])
+		b, _ := packet.GetID(all[j])
+		return s.order[a] < s.order[b]
+	})
 
 	return all
 }
@@ -85,4 +102,5 @@ func (s *PacketStore) Reset() {
 
 	// reset packets
 	s.packets = make(map[packet.ID]packet.Generic)
+	s.order = make(map[packet.ID]uint64)
 }
